@@ -25,6 +25,29 @@ pub fn dispatch(cmd: &str, a: &Args) -> Option<Result<()>> {
     }
 }
 
+/// Is any thread of this process other than the caller in state R (running/runnable) or D?
+fn other_thread_active() -> bool {
+    let me = unsafe { libc::syscall(libc::SYS_gettid) } as i64;
+    if let Ok(rd) = std::fs::read_dir("/proc/self/task") {
+        for e in rd.flatten() {
+            let tid: i64 = e.file_name().to_string_lossy().parse().unwrap_or(0);
+            if tid == me {
+                continue;
+            }
+            if let Ok(st) = std::fs::read_to_string(e.path().join("stat")) {
+                // state is the field after the last ')'
+                if let Some(p) = st.rfind(')') {
+                    let state = st[p + 1..].trim_start().chars().next().unwrap_or('S');
+                    if state == 'R' || state == 'D' {
+                        return true;
+                    }
+                }
+            }
+        }
+    }
+    false
+}
+
 fn num(e: &Event, k: &str) -> i64 {
     e.nums.iter().find(|(n, _)| *n == k).map(|x| x.1).unwrap_or(-1)
 }
@@ -73,7 +96,13 @@ fn drive(a: &Args) -> Result<()> {
         match rx.recv_timeout(std::time::Duration::from_millis(200)) {
             Ok(r) => break Some(r),
             Err(std::sync::mpsc::RecvTimeoutError::Timeout) => {
-                let idle = t0.elapsed().as_millis() as u64 - last_progress.load(Ordering::Relaxed);
+                // progress = a hook event, or any other thread of this process runnable / in I/O
+                // (finalize compresses metadata without emitting events; on a loaded machine a
+                // runnable thread may wait long for a CPU). A stuck pipeline has every thread asleep.
+                if other_thread_active() {
+                    last_progress.store(t0.elapsed().as_millis() as u64, Ordering::Relaxed);
+                }
+                let idle = (t0.elapsed().as_millis() as u64).saturating_sub(last_progress.load(Ordering::Relaxed));
                 if idle > stall_secs * 1000 {
                     stalled = true;
                     break None;
